@@ -263,10 +263,24 @@ def r3_nul_trim(r, facts):
     raw = [x for x in subexprs(e) if x[0] == 'call' and x[1] == 'std::slice::from_raw_parts']
     trimmed = [x for x in subexprs(e) if x[0] == 'call' and (x[1] in TRIM_IDIOMS or x[1] in ('std::ops::Index::index',))]
     # an Index with a range whose bound comes from a NUL search
-    nul_search = [x for x in subexprs(e) if x[0] == 'call' and x[1] in ('std::iter::Iterator::position', 'core::slice::memchr::memchr', 'std::ffi::CStr::from_bytes_until_nul', 'core::slice::<impl [T]>::split')]
+    NUL_SEARCH = ('std::iter::Iterator::position', 'std::iter::Iterator::rposition', 'std::iter::DoubleEndedIterator::rposition', 'core::slice::memchr::memchr',
+                  'core::slice::memchr::memrchr', 'std::ffi::CStr::from_bytes_until_nul', 'core::slice::<impl [T]>::split', 'core::slice::<impl [T]>::strip_suffix',
+                  'core::slice::<impl [T]>::trim_ascii_end', 'std::iter::Iterator::take_while', 'core::slice::<impl [u8]>::trim_end_matches')
+    nul_search = [x for x in subexprs(e) if x[0] == 'call' and x[1] in NUL_SEARCH]
     r.inst('from_pathname(%s)' % (str(e)[:200],), f.where(loc))
     r.require(bool(raw), 'unix::init/source', 'the path is not taken from the storage bytes', f.where(loc))
-    r.require(bool(nul_search), 'unix::init/nul', 'the bytes given to from_pathname are the kernel-reported length including the terminating NUL (not cut at the first NUL): from_pathname rejects them and every path-bound socket reads back as unnamed', f.where(loc))
+    r.require(bool(nul_search), 'unix::init/nul', 'the bytes given to from_pathname are the kernel-reported length including the terminating NUL (not cut at a NUL): from_pathname rejects them and every path-bound socket reads back as unnamed', f.where(loc))
+    # abstract names are *all* bytes the kernel reported after the leading NUL: NUL bytes are part of the name,
+    # so nothing may be searched for / trimmed off before from_abstract_name
+    fa = [(l2, t2) for l2, t2 in f.calls() if (t2.get('callee') or '').endswith('SocketAddrExt>::from_abstract_name') or (t2.get('callee') or '').endswith('::from_abstract_name')]
+    fa = [(l2, t2) for l2, t2 in fa if not f.blocks[l2[0]]['cleanup']]
+    if r.require(len(fa) >= 1, 'unix::init/from_abstract_name', 'from_abstract_name call not found in the Unix reader (abstract names cannot be read back)', f.where()):
+        for l2, t2 in fa:
+            ea = eb.operand(t2['args'][0])
+            r.inst('from_abstract_name(%s)' % (str(ea)[:200],), f.where(l2))
+            cut = [x for x in subexprs(ea) if x[0] == 'call' and x[1] in NUL_SEARCH]
+            r.require(not cut, 'unix::init/abstract-trimmed', 'the bytes given to from_abstract_name were cut at a NUL (%s): NUL bytes are part of an abstract name, names ending in NUL read back as a different address' % (cut[0][1] if cut else ''), f.where(l2))
+            r.require(any(x[0] == 'call' and x[1] == 'std::slice::from_raw_parts' for x in subexprs(ea)), 'unix::init/abstract-source', 'the abstract name is not taken from the storage bytes', f.where(l2))
     r.floor(1)
 
 
